@@ -156,6 +156,11 @@ pub fn run_traced(
                     serial,
                 });
             } else if let Some(top) = frames.last_mut() {
+                // A function entry passed along an edge (a branch back to the function's
+                // label, a fall-through or jump from other code) re-bases "value at entry
+                // to the enclosing function": the repository's own test
+                // no-invalid-assign-for-ret pins this reading (main falls into `other`
+                // with ra changed and `ret` must not be blamed).
                 top.snapshot = m.regs;
             }
             on(
